@@ -108,18 +108,23 @@ func buildC16(kind string, opt bool) *c16World {
 		r = w.env.NewRouter("r", o...)
 		g.Add(mux.NewPathVersion("", "api"), r)
 		w.serve, w.g404, w.prefix = g, w.env.Group404, "/api"
-	case "group-new", "group-new-extra": // the router inherits the group's recovery option (also when it brings unrelated options of its own)
+	case "group-new", "group-new-extra", "group-new-many": // the router inherits the group's recovery option (also when it brings unrelated options of its own)
 		// the option list of the group is a list of the caller with spare capacity; a second list of the caller extends it
 		// by a recovery option for a stand-alone "witness" router that is built after Group.New has run
 		o := make([]mux.Option, 0, 8)
 		o = append(o, mux.WithTrace(w.trace))
+		if kind == "group-new-many" {
+			// a long option list: the recovery option is the tenth of the group, and Group.New brings three more
+			o = append(o, mux.WithLock(false), mux.WithURLDomain("https://many.example"), mux.WithDenyCORS(), mux.WithAnyInterceptor("any-m"), mux.WithDigitInterceptor("digit-m"),
+				mux.WithWordInterceptor("word-m"), mux.WithInterceptor(func(string) bool { return true }, "all-m"), mux.WithLock(false))
+		}
 		if opt {
 			o = append(o, recOpt(w.groupRec))
 		}
 		witnessRec := &recRecorder{}
 		derived := append(o, recOpt(witnessRec))
 		g := w.env.NewGroup(o...)
-		if kind == "group-new-extra" {
+		if kind == "group-new-extra" || kind == "group-new-many" {
 			r = g.New("r", mux.NewPathVersion("", "api"), mux.WithURLDomain("https://u.example"), mux.WithLock(true), mux.WithAllowedCORS(60))
 		} else {
 			r = g.New("r", mux.NewPathVersion("", "api"))
@@ -389,7 +394,7 @@ func runtimeFault() any {
 func runC16(c *Ctx) {
 	sites := c16Sites()
 	n := 0
-	for _, kind := range []string{"router", "router-nil-last", "group-add", "group-rec-add", "group-new", "group-new-extra"} {
+	for _, kind := range []string{"router", "router-nil-last", "group-add", "group-rec-add", "group-new", "group-new-extra", "group-new-many"} {
 		for _, opt := range []bool{true, false} {
 			w := buildC16(kind, opt)
 			if w.buildFault != "" {
@@ -414,7 +419,7 @@ func runC16(c *Ctx) {
 	c.ClassN("product_combinations_enumerated", n)
 	// random sequences mixing panicking and normal requests (pool reuse after recovery)
 	r := c.R
-	w := buildC16(ref.Pick(r, []string{"router", "router-nil-last", "group-add", "group-rec-add", "group-new", "group-new-extra"}), r.Chance(3, 4))
+	w := buildC16(ref.Pick(r, []string{"router", "router-nil-last", "group-add", "group-rec-add", "group-new", "group-new-extra", "group-new-many"}), r.Chance(3, 4))
 	for k := 0; k < 60 && !c.Violated(); k++ {
 		if r.Chance(1, 3) {
 			id := fmt.Sprint(r.Intn(1000))
@@ -438,7 +443,7 @@ func init() {
 		Cases:      func(t string) int { return map[string]int{"quick": 1000, "thorough": 40000}[t] },
 		Run:        runC16,
 		Exhaustive: true,
-		Rule: "every case enumerates the complete product: 23 panic sites (route handler per method, automatic HEAD, the asterisk-form and empty request targets on a stand-alone router (OPTIONS *, GET *, TRACE *, empty path), GET and HEAD handlers that write a header, a status and body bytes before panicking, OPTIONS, 405, 404, TRACE, each middleware layer Use/prefix/registration before and after next, CallFunc, group not-found, CallFunc for group not-found) x 5 panic values (string, error, struct, genuine runtime.Error, http.ErrAbortHandler) x 6 containers (Router, a router whose recovery option is followed by WithRecovery(nil) - documented \"the last one wins\", so none -, Group+Add-ed router with its own recovery, a group with a recovery function plus an Add-ed router with another one, Group.New router inheriting the group's option, the same with unrelated options of its own) x recovery on/off; after every fault a normal request and a 404 are checked; then a random sequence of 60 faulty/normal requests; " +
+		Rule: "every case enumerates the complete product: 23 panic sites (route handler per method, automatic HEAD, the asterisk-form and empty request targets on a stand-alone router (OPTIONS *, GET *, TRACE *, empty path), GET and HEAD handlers that write a header, a status and body bytes before panicking, OPTIONS, 405, 404, TRACE, each middleware layer Use/prefix/registration before and after next, CallFunc, group not-found, CallFunc for group not-found) x 5 panic values (string, error, struct, genuine runtime.Error, http.ErrAbortHandler) x 7 containers (Router, a router whose recovery option is followed by WithRecovery(nil) - documented \"the last one wins\", so none -, Group+Add-ed router with its own recovery, a group with a recovery function plus an Add-ed router with another one, Group.New router inheriting the group's option, the same with unrelated options of its own, the same with the recovery option as the tenth of thirteen options) x recovery on/off; after every fault a normal request and a 404 are checked; then a random sequence of 60 faulty/normal requests; " +
 			"non-trivial (distinct) = every (container, option, site, value) combination",
 		Floors: func(t string) map[string]int64 {
 			return map[string]int64{"recovered": 200, "passed_through": 200, "product_combinations_enumerated": 400, "random_sequence_fault": 100}
